@@ -152,8 +152,12 @@ class Roles:
     def relays(self):
         """message loops of the engine: bodies with a select arm on the actors' output channel"""
         def go():
+            def in_loop(v):
+                # the select sits in a loop of this body (a helper that waits for *one* event - spliced into the loops that call it - is not a relay)
+                loops = v.natural_loops()
+                return any(arm.edge.src in blks for arm in arm_by_payload(v, lambda p: "TargetActorOutputMessage" in p) for (h, blks, ex) in loops)
             cands = [b for b in self.f.user_bodies() if b.coroutine and any(tyname(ty) == "TargetActorOutputMessage" for ty, _ in recv_types(self.V(b)))
-                     and arm_by_payload(self.V(b), lambda p: "TargetActorOutputMessage" in p)]
+                     and arm_by_payload(self.V(b), lambda p: "TargetActorOutputMessage" in p) and in_loop(self.V(b))]
             return [self.V(b) for b in self.minimal(cands)]
         return self._memo("relays", go)
 
@@ -273,7 +277,7 @@ class Roles:
                 names = ({b.name, self.fn_of(b).name} | self.f.cg.reach([self.fn_of(b).name], cross_spawn=False)) & set(hm)
                 for n in names:
                     co = self.f.coroutine_of(n) or hm[n]
-                    for x in (hm[n], co):
+                    for x in (hm[n], co, self.V(co)):
                         if any(atom_has_field(l[5], "requesters", "TargetActorHelper") for l in for_loops(x)):
                             return True
                 return False
@@ -281,10 +285,31 @@ class Roles:
             # a constructor helper (`fn ok_message(..) -> ActorInputMessage`): the bodies that ask it for the message build Ok as well
             ctor_names = {b.name for b in builders if not b.coroutine and b.kind in ("Fn", "AssocFn") and "ActorInputMessage" in b.ret}
             via = [x for x in self.helper_methods() if any(callee_base(t) in ctor_names for _, t in x.calls()) and x.name not in ctor_names]
+            def loops_over_requesters(n):
+                if n not in hm:
+                    return False
+                co = self.f.coroutine_of(n) or hm[n]
+                return any(any(atom_has_field(l[5], "requesters", "TargetActorHelper") for l in for_loops(x)) for x in (hm[n], co, self.V(co)))
+            def ok_goes_to_all(b):
+                """the Ok this body builds (or obtains from a constructor helper) is what gets fanned out: it is built inside a loop over `requesters`, or handed
+                to a helper that loops over them - a handler that answers one given requester with an Ok is not a success notifier"""
+                srcs = [st["lhs"]["local"] for (_, st) in b.aggregates("ActorInputMessage", "Ok")] + \
+                       [t["dest"]["local"] for _, t in b.calls() if callee_base(t) in ctor_names and t.get("dest")]
+                in_loop = {bb for l in for_loops(b) if atom_has_field(l[5], "requesters", "TargetActorHelper") for bb in l[4]}
+                if any(bb in in_loop for (bb, _) in b.aggregates("ActorInputMessage", "Ok")):
+                    return True
+                for l0 in srcs:
+                    fl = b.prov.flows_forward(l0)
+                    for _, t in b.calls():
+                        if any(operand_local(a) in fl for a in t["args"]) and (loops_over_requesters(callee_base(t)) or loops_over_requesters(self.fn_of(self.f.bodies[callee_base(t)]).name if callee_base(t) in self.f.bodies else "")):
+                            return True
+                return False
             for b in builders + [x for x in via if x not in builders]:
-                if b in self.helper_methods() and b.name not in ctor_names and fans_out(b):
+                if b in self.helper_methods() and b.name not in ctor_names and fans_out(b) and ok_goes_to_all(b):
                     out.append(b)
-            return out
+            # a handler extracted from an actor (`fn handle_outcome(helper: &mut Helper, ..)`) that merely calls the notifier contains its code: keep the innermost
+            inner = {x.name for x in self.minimal([self.f.bodies[b.name] for b in out])}
+            return [b for b in out if b.name in inner]
         return self._memo("succ_notifiers", go)
 
     def failure_notifiers(self):
